@@ -1,7 +1,7 @@
 """C15 — nearest-better clustering returns exactly the defined cluster seeds."""
 from .. import nbc_direct
 
-FRONT_ENDS = []
+FRONT_ENDS = ["nbc"]
 EXPLANATION = "NBC algorithm as coded vs its definition, for all sorted fitness vectors, distance matrices and thresholds; real NearestBetterClustering vs model under vm_compute; brute-force definition and metamorphic monitors"
 ASSUMPTIONS = ["pairwise distinct genomes and floor(n*truncation) >= 1 (the property's domain)",
                "distances and their mean are computed by numpy (policy 3): the model takes the recorded distance keys and threshold; the monitor re-derives the mean in exact rational "
@@ -31,8 +31,10 @@ MANIFEST = {
             "better individual (the best only, for a tie with the best); cluster() returns the best plus exactly the individuals whose nearest-better distance exceeds the threshold, without "
             "duplicates, inside the truncated population; the result depends only on the sorted goodness vector and the distance matrix (order-, direction-, translation- and scale-free). "
             "Tie: the real NearestBetterClustering is run on generated populations and compared with the model under vm_compute on the recorded fitness keys, distance keys and threshold; "
-            "monitors: an independent brute-force implementation of the definition and metamorphic re-runs with exact transformations only.",
+            "monitors: an independent brute-force implementation of the definition and metamorphic re-runs with exact transformations only. Second tie (translator): "
+            "NearestBetterClustering.__init__ / cluster / distances / _prepare_spanning_tree / _find_nearest_better / _find_root_nodes are translated on every check (coq/Gen/GenNBC.v, "
+            "hv/translate/nbc_py.py) and proved to be the model the theorems are about (Proofs/GenEquivNBC.v; C15_translated_* theorems).",
     "note": "treelib's bookkeeping and the node identifier are not modelled (near-duplicate genomes are generated so that colliding identifiers would drop nodes and show up as a disagreement); "
             "numpy's norm/mean are inputs of the model (policy 3, knife-edge decisions counted). Trusted: Coq kernel, vm_compute, the harness.",
-    "technique": "Coq refinement of the coded NBC algorithm to its definition + vm_compute differential run against the real class + brute-force and metamorphic monitors",
+    "technique": "Coq refinement of the coded NBC algorithm to its definition + python-ast -> Gallina translation of clusterization.py proved equal to the model + vm_compute differential run against the real class + brute-force and metamorphic monitors",
 }
